@@ -440,7 +440,7 @@ func HC09_BitPool() {
 	} else {
 		p.next = vU8("next0")
 	}
-	p.available = uint16(avail)
+	hSetInt(&p.available, avail) // whatever integer type the counter has
 	// Get: a bit that is not held, below the limit
 	b := p.Get()
 	if int(b) < length {
@@ -460,4 +460,11 @@ func HC09_BitPool() {
 	b3 := p.Get()
 	vAssert(b3 == b && b3 != b2, "a released lock bit is re-used first and never collides with a held one")
 	vReach("end")
+}
+
+// hSetInt stores v into an integer field of any width: the lemma harnesses set
+// internal counters directly and must keep compiling when a change narrows or
+// widens such a field (the narrowing is then decided, not a build error).
+func hSetInt[T ~uint8 | ~uint16 | ~uint32 | ~uint64 | ~int | ~int32 | ~int64](dst *T, v int) {
+	*dst = T(v)
 }
